@@ -576,7 +576,12 @@ func judgeInj(w *core.W, c *injCase) {
 			var pan interface{}
 			func() {
 				defer func() { pan = recover() }()
-				err = nearest.Apply(&tgt)
+				if len(c.Regs)%4 == 1 {
+					pt := &tgt
+					err = nearest.Apply(&pt) // a pointer to a pointer to the struct: every level is dereferenced
+				} else {
+					err = nearest.Apply(&tgt)
+				}
 			}()
 			fields := []struct {
 				name string
@@ -778,18 +783,19 @@ func judgeInj(w *core.W, c *injCase) {
 // ---- part B: the real scopes (Flame = application, Context = request) ----------------
 
 type flameInjCase struct {
-	App      []injReg `json:"app"`                        // Flame.Map*/Set
-	Req      []injReg `json:"request"`                    // Context.Map*/Set in the first handler of request 1
-	Params   []string `json:"params"`                     // parameters of the later handler
-	Wrapping string   `json:"wrapping"`                   // plain | context | http | handlerfunc | teapot | logger
-	Remap    bool     `json:"context_remapped,omitempty"` // an earlier handler re-registers the Context type in the request scope (a decorating wrapper); later handlers must receive the wrapper
+	App      []injReg `json:"app"`                            // Flame.Map*/Set
+	Req      []injReg `json:"request"`                        // Context.Map*/Set in the first handler of request 1
+	Params   []string `json:"params"`                         // parameters of the later handler
+	Wrapping string   `json:"wrapping"`                       // plain | context | http | handlerfunc | teapot | logger
+	Logger   bool     `json:"logger_re_registered,omitempty"` // the application re-registers *log.Logger (a type the framework maps itself): handlers must receive the later registration
+	Remap    bool     `json:"context_remapped,omitempty"`     // an earlier handler re-registers the Context type in the request scope (a decorating wrapper); later handlers must receive the wrapper
 }
 
 // c04CtxWrap decorates the request's Context.
 type c04CtxWrap struct{ flamego.Context }
 
 func genFlameInjCase(rng *rand.Rand) *flameInjCase {
-	c := &flameInjCase{Wrapping: []string{"plain", "plain", "plain", "context", "http", "handlerfunc", "teapot", "logger"}[rng.Intn(8)], Remap: rng.Intn(3) == 0}
+	c := &flameInjCase{Wrapping: []string{"plain", "plain", "plain", "context", "http", "handlerfunc", "teapot", "logger"}[rng.Intn(8)], Remap: rng.Intn(3) == 0, Logger: rng.Intn(4) == 0}
 	n := 0
 	gen := func() injReg {
 		key := c04Tys[rng.Intn(len(c04Tys))]
@@ -843,6 +849,11 @@ func judgeFlameInj(w *core.W, c *flameInjCase) {
 	for _, rg := range c.App {
 		applyReg(f, rg, chans)
 		appTbl[tyByName(rg.Key)] = rg.Tag
+	}
+	var myLogger *log.Logger
+	if c.Logger {
+		myLogger = log.New(io.Discard)
+		f.Map(myLogger)
 	}
 	reqTbl := map[reflect.Type]string{}
 	for _, rg := range c.Req {
@@ -913,11 +924,19 @@ func judgeFlameInj(w *core.W, c *flameInjCase) {
 			if (c.Remap && ctx != wrapCtx) || (!c.Remap && ctx != curCtx) || l == nil {
 				svcOK = "LoggerInvoker received services that are not the request's own (or not the re-registered Context)"
 			}
+			if c.Logger && l != myLogger {
+				svcOK = "LoggerInvoker did not receive the *log.Logger the application registered last"
+			}
 		})
 	default:
 		wrapped = func() { wran++ }
 	}
-	f.Get("/i", func(ctx flamego.Context) { curCtx = ctx }, mapper, wrapped, later)
+	loggerSeen := func(l *log.Logger) {
+		if c.Logger && l != myLogger {
+			svcOK = "a handler asking for *log.Logger did not receive the one the application registered last (a later registration replaces the earlier)"
+		}
+	}
+	f.Get("/i", func(ctx flamego.Context) { curCtx = ctx }, mapper, wrapped, loggerSeen, later)
 
 	serve := func(withMap bool) (pan interface{}) {
 		o = injObs{}
@@ -969,6 +988,9 @@ func judgeFlameInj(w *core.W, c *flameInjCase) {
 		return
 	}
 	w.Count("wrapping:" + c.Wrapping)
+	if c.Logger {
+		w.Count("framework-type-re-registered")
+	}
 	if c.Remap && (c.Wrapping == "context" || c.Wrapping == "logger") {
 		w.Count("context-remapped-before-context-handler")
 	}
@@ -1002,7 +1024,7 @@ func runC04(r *core.Run) {
 		judgeFlameInj(w, c)
 	})
 	r.Gate("distinct_nontrivial", r.NonTrivialCount(), 5000)
-	for _, k := range []string{"nt:candidates-in>=2-scopes", "nt:exact-and-implementor", "nt:unresolvable", "nt:re-registered", "invocations:fast", "invocations:reflective", "apply", "apply-unresolved", "flame-requests", "nt:request-shadows-application", "wrapping:context", "wrapping:http", "wrapping:handlerfunc", "wrapping:teapot", "wrapping:logger", "several-implementors-in-scope(any accepted)", "second-invocation-after-more-registrations", "nt:later-registration-changes-the-resolution", "apply-again-after-more-registrations", "context-remapped-before-context-handler", "apply-by-value-first", "typed-nil-registered"} {
+	for _, k := range []string{"nt:candidates-in>=2-scopes", "nt:exact-and-implementor", "nt:unresolvable", "nt:re-registered", "invocations:fast", "invocations:reflective", "apply", "apply-unresolved", "flame-requests", "nt:request-shadows-application", "wrapping:context", "wrapping:http", "wrapping:handlerfunc", "wrapping:teapot", "wrapping:logger", "several-implementors-in-scope(any accepted)", "second-invocation-after-more-registrations", "nt:later-registration-changes-the-resolution", "apply-again-after-more-registrations", "context-remapped-before-context-handler", "apply-by-value-first", "typed-nil-registered", "framework-type-re-registered"} {
 		r.GateCounter(k, 100)
 	}
 }
